@@ -367,6 +367,22 @@ def io_Read (s : Src) (n : Int) : List UInt8 × Option Err × Src :=
   | [] => ([], if s.fail then io_srcErr else io_EOF, s)
   | _ => (s.data.take n.toNat, none, ⟨s.data.drop n.toNat, s.fail⟩)
 
+/-! ## strconv.Itoa, hex.EncodeToString -/
+
+def natDigits : Nat → Nat → List UInt8
+  | 0, _ => []
+  | fuel + 1, n => if n < 10 then [(48 + n).toUInt8] else natDigits fuel (n / 10) ++ [(48 + n % 10).toUInt8]
+
+/-- `strconv.Itoa` -/
+def strconv_Itoa (i : Int) : List UInt8 :=
+  if i < 0 then 45 :: natDigits (i.natAbs + 1) i.natAbs else natDigits (i.toNat + 1) i.toNat
+
+def hexDigitLower (n : Nat) : UInt8 := if n < 10 then (48 + n).toUInt8 else (87 + n).toUInt8
+
+/-- `hex.EncodeToString`: two lower-case digits per byte -/
+def hex_EncodeToString (b : List UInt8) : List UInt8 :=
+  b.flatMap fun x => [hexDigitLower (x.toNat / 16), hexDigitLower (x.toNat % 16)]
+
 /-! ## sort.Strings: Go strings compare bytewise -/
 
 def bytesLe : List UInt8 → List UInt8 → Bool
